@@ -18,6 +18,13 @@ nest       nesting depth 2 and 3 with every helper incl. ``forloop.parentloop`` 
            ``for`` > ``tablerow`` > ``for`` and ``tablerow`` > ``for``.
 tablerow   one ``tablerow``: kind x length x cols (absent, 1..len+1) x limit x offset x form,
            every ``tablerowloop`` helper.
+blank      a ``for`` (with / without ``else``) whose body and/or else block write nothing
+           (empty, whitespace, assign, unconditional break / continue), alone or next to text
+           inside chains of other block tags (if / unless / else / elsif / case / capture / for):
+           the else block must still render exactly when no item is visited.
+freecols   one ``tablerow`` with a ``cols`` value the docs are silent on (0, negative, nil,
+           non-numeric / numeric string, float, bool, huge, undefined; literal and variable):
+           no layout is prescribed, only that items, rendered rows/cells and every helper agree.
 """
 
 from __future__ import annotations
@@ -663,9 +670,13 @@ class C13(Check):
         "from index0 and cols). Parts: slice (kind x length x limit x offset x forms x reversed x else), interrupt "
         "(break/continue at every index and body position, single/nested/in tablerow cell), cont (2-3 loop "
         "sequences and re-executed loops sharing offset:continue), nest (depth 2-3, parentloop chains, for/tablerow "
-        "mixes), tablerow (kind x length x cols x limit x offset x forms). One evaluation = one (program, mode). "
+        "mixes), tablerow (kind x length x cols x limit x offset x forms), blank (loops whose body/else write nothing, "
+        "inside chains of if/unless/else/elsif/case/capture/for wrappers: else output must survive), freecols "
+        "(cols = 0/negative/nil/non-numeric/...: layout-free consistency of items, <tr>/<td> numbering and helpers). "
+        "One evaluation = one (program, mode). "
         "Non-trivial = the model visits >= 1 item AND the program uses at least one of limit/offset/reversed/cols/"
-        "break/continue/nesting; distinct = distinct (source, data, mode)."
+        "break/continue/nesting/wrapping (or renders an else block inside a wrapper); distinct = distinct (source, data, "
+        "mode)."
     )
     assumptions = [
         "item values are distinct short strings / small integers; other item values behave alike for iteration",
@@ -677,7 +688,11 @@ class C13(Check):
         "with a negative offset (reference implementation and docs disagree on the remembered position), never "
         "after a loop that used break, and never across tablerow; inside a loop that breaks only index/index0/first "
         "are compared",
-        "not generated (outside the stated domain): nil/undefined/integer iterables, non-integer limits, cols <= 0, "
+        "cols values other than a number of columns >= 1 (0, negative, nil, strings, floats, bools, 10**30, undefined): "
+        "tag_reference.md#cols prescribes no layout, so only consistency is required: visited items once each in "
+        "order, rows numbered 1.., cells numbered 1.. within their rendered row, col/col0/col_first/row equal to the "
+        "rendered position, col_last of a non-final cell iff its row ends there",
+        "not generated (outside the stated domain): nil/undefined/integer iterables, non-integer limits, "
         "break/continue directly inside tablerow, reversed on tablerow",
     ]
 
@@ -697,6 +712,9 @@ class C13(Check):
                                   "explicit offsets (incl. negative limit), other iterable; third continue x {no limit, "
                                   "limit 1 reversed}; "
                                   "plus an inner continue loop re-executed 1..3 times",
+            "blank_wrappers": "chains of depth 0..2 (quick: depth 2 over if/case/capture/for; thorough: all 8 at depth 2, "
+                              "4 at depth 3) x 14 loops x 8 bodies x 5 else blocks x alone / between text",
+            "free_cols": "0,-1,-3,nil,'x','','2','0','-1',2.5,0.5,-1.5,true,false,10**30,-10**30,undefined x 6 slices",
             "modes": "render and render_async",
         }
 
